@@ -7,6 +7,7 @@ the model: disconnected MRSs, shared intrinsic variables, dangling or cyclic
 handle constraints, self-scoping arguments, DMRSs with arbitrary EQ links.
 -/
 import Verif.C07.Model
+import Verif.Generated.TablesC07
 import Verif.Common.SemLemmas
 import Verif.C07.WfLemmas
 import Verif.C07.Lemmas
@@ -389,5 +390,144 @@ and the positional lists of the model coincide (`idsDistinct` is the driver's gu
 theorem ids_distinct (m : MRS) (h : ∀ e ∈ m.rels, ∃ v, e.iv = some v ∧ v.sort ≠ "_") :
     m.ids.Nodup ∧ m.idsDistinct = true :=
   ⟨ids_nodup m h, idsDistinct_of_ivs m h⟩
+
+/-! ## 10. Pins: the constants of the anchored code that the shared `Sem` model hand-codes
+
+`Verif/Generated/TablesC07.lean` is rewritten on every run by `harness/c07.py: tables()` from the
+live code objects of /repo: for every anchored function its constants (`co_consts`; comprehensions
+and inner functions flattened between `<name>` … `</>`; docstrings and message texts dropped), the
+global/attribute names it refers to (`co_names`) and its default argument values; the module-level
+constants; the compiled variable pattern; and the EP id formats observed by behaviour.  The literal
+copies below sit next to the model definitions that mirror them, so a change to any of them stops
+this theorem from checking (reported as a broken proof obligation, followed by a failing-input search):
+
+* `is_connected` (names: label/iv/hcons hi→lo/arguments/`_bfs`, `issubset`) — `MRS.graphNodes`,
+  `MRS.graphEdges`, `MRS.hcmap`, `MRS.isConnected`;
+* `has_intrinsic_variable_property` / `has_complete…` / `has_unique…` (conjunct names, `is_quantifier`,
+  `iv`, `len(set(..))`) — `MRS.hasIVProperty`, `MRS.hasCompleteIVs`, `MRS.hasUniqueIVs`;
+* `plausibly_scopes` (`types='h'`, `False`/`True`, `top`, hi/lo) — `psStep`, `MRS.handleArgs`,
+  `MRS.plausiblyScopes`; `is_well_formed` (the three conjunct names) — `MRS.isWellFormed`;
+* `EP.__init__` (`'_0'`, `'_'`, `_QUANTIFIER_TYPE`), `EP.is_quantifier`, `_uniquify_ids` (`'_{}'`, default
+  `0`, step `1`) — `EP.iv`, `EP.baseId`, `EP.type`, `EP.isQuantifier`, `uniquify`, `maxVid`, `MRS.ids`
+  (and `c07IdProbes` re-computed here BY THE MODEL: `x5`, `q5`, `_0`, `q0`; `x5,_5,_6`; `h1`);
+* `MRS.arguments` (skips `INTRINSIC_ROLE`, `CONSTANT_ROLE`; defaults `None, None`) — `EP.outArgs`;
+  `MRS.scopes` — `groupByLabel`, `MRS.topTarget`, `MRS.scopes`; `MRS.scopal_arguments` (`LHEQ`,
+  `relation`, `lo`) — `MRS.scopalArgsOf`; `MRS.is_quantifier`, `MRS.properties` — `MRS.repRank`, `MRS.props`;
+* `scope.conjoin` (`_connected_components`, `next(iter(..))`, `extend`) — `conjoin`; `descendants` /
+  `_descendants` (`scopes.get(label, [])`, `append`, `extend`) — `descVisit`, `descendantsOf`;
+  `representatives` (`types='xeipu'`, `len(scope) == 1`, `intersection`, `sort(key=…)`) — `candidates`,
+  `blocked`, `representativesOf`, `MRS.nsArgs`; `_make_representative_priority` (ranks `0 1 2 3`, `'x'`,
+  `'e'`, `'TENSE'`, `''`, index from `1`) and `_UNTENSED_VALUES` — `MRS.repRank`, `MRS.repKey`, `sortBy`;
+* `DMRS.scopes` (`starting_vid=1`, `HANDLE`, `EQ_POST`, top by `node.id`), `_normalize_top_and_links`
+  (`TOP_NODE_ID`), `Node.__eq__`, `VariableFactory` — `idToLbl`, `DMRS.leqs`, `DMRS.prescopes`, `DMRS.scopes`,
+  `normalizeTopAndLinks`, `Node.pyEq`;
+* `util._bfs` (default start `None`, `deque`/`popleft`/`extend`, `g.get(x, [])`), `_connected_components` —
+  `bfsLoop`, `bfs`, `componentsLoop`, `connectedComponents`;
+* `variable._variable_re` / `split` (groups 1, 2), sorts `u i p e x h` — `Var` (sort, vid), `Var.sortIn`
+  and the converters of `harness/common/semgen.py`; role and relation names — `INTRINSIC_ROLE`,
+  `RESTRICTION_ROLE`, `CONSTANT_ROLE`, `LHEQ`, `QEQ`, `EQ_POST`, `HEQ_POST`, `H_POST`. -/
+
+def pinEP (args : List (Role × Var)) : EP := { predicate := "p", label := ⟨"h", 1⟩, args := args }
+def pinMRS3 : MRS :=
+  { top := none, index := none, hcons := [],
+    rels := [pinEP [("ARG0", ⟨"x", 5⟩)], pinEP [("ARG0", ⟨"x", 5⟩)], pinEP [("ARG0", ⟨"x", 5⟩)]] }
+
+open Verif.Tables in
+theorem c07_pins :
+    c07IsConnectedConsts = [] ∧
+    c07IsConnectedNames = ["rels", "id", "set", "label", "iv", "update", "setdefault", "add", "hcons", "hi", "lo", "arguments", "items", "get", "issubset", "util", "_bfs"] ∧
+    c07IsConnectedDefaults = [] ∧
+    c07HasIvPropertyConsts = [] ∧
+    c07HasIvPropertyNames = ["has_complete_intrinsic_variables", "has_unique_intrinsic_variables"] ∧
+    c07HasIvPropertyDefaults = [] ∧
+    c07HasCompleteIvsConsts = ["<<genexpr>>", "None", "</>"] ∧
+    c07HasCompleteIvsNames = ["all", "rels", "is_quantifier", "iv"] ∧
+    c07HasCompleteIvsDefaults = [] ∧
+    c07HasUniqueIvsConsts = [] ∧
+    c07HasUniqueIvsNames = ["rels", "is_quantifier", "iv", "len", "set"] ∧
+    c07HasUniqueIvsDefaults = [] ∧
+    c07PlausiblyScopesConsts = ["<<genexpr>>", "None", "</>", "False", "'h'", "('types',)", "True"] ∧
+    c07PlausiblyScopesNames = ["set", "rels", "hcons", "hi", "lo", "top", "arguments", "items", "cast", "mrs", "EP", "label", "add", "label"] ∧
+    c07PlausiblyScopesDefaults = [] ∧
+    c07IsWellFormedConsts = [] ∧
+    c07IsWellFormedNames = ["is_connected", "has_intrinsic_variable_property", "plausibly_scopes"] ∧
+    c07IsWellFormedDefaults = [] ∧
+    c07EpInitConsts = ["None", "'_0'", "'_'"] ∧
+    c07EpInitNames = ["get", "INTRINSIC_ROLE", "variable", "split", "RESTRICTION_ROLE", "_QUANTIFIER_TYPE", "super", "__init__", "label", "args", "base"] ∧
+    c07EpInitDefaults = ["None", "None", "None", "None"] ∧
+    c07EpIsQuantifierConsts = [] ∧
+    c07EpIsQuantifierNames = ["RESTRICTION_ROLE", "args"] ∧
+    c07EpIsQuantifierDefaults = [] ∧
+    c07UniquifyIdsConsts = ["None", "<<genexpr>>", "None", "</>", "0", "('default',)", "'_{}'", "1"] ∧
+    c07UniquifyIdsNames = ["max", "set", "id", "format", "add", "iv", "variable", "id"] ∧
+    c07UniquifyIdsDefaults = [] ∧
+    c07MrsArgumentsConsts = ["None"] ∧
+    c07MrsArgumentsNames = ["rels", "iv", "id", "args", "items", "INTRINSIC_ROLE", "CONSTANT_ROLE", "variable", "type", "append"] ∧
+    c07MrsArgumentsDefaults = ["None", "None"] ∧
+    c07MrsScopesConsts = ["<<genexpr>>", "None", "</>", "None"] ∧
+    c07MrsScopesNames = ["rels", "setdefault", "label", "append", "next", "hcons", "top", "hi", "top", "lo"] ∧
+    c07MrsScopesDefaults = [] ∧
+    c07MrsScopalArgumentsConsts = ["None"] ∧
+    c07MrsScopalArgumentsNames = ["rels", "label", "hcons", "hi", "id", "args", "items", "INTRINSIC_ROLE", "CONSTANT_ROLE", "append", "scope", "LHEQ", "relation", "lo"] ∧
+    c07MrsScopalArgumentsDefaults = ["None"] ∧
+    c07MrsIsQuantifierConsts = [] ∧
+    c07MrsIsQuantifierNames = ["RESTRICTION_ROLE", "args"] ∧
+    c07MrsIsQuantifierDefaults = [] ∧
+    c07MrsPropertiesConsts = [] ∧
+    c07MrsPropertiesNames = ["iv", "variables"] ∧
+    c07MrsPropertiesDefaults = [] ∧
+    c07ConjoinConsts = [] ∧
+    c07ConjoinNames = ["_connected_components", "list", "next", "iter", "extend"] ∧
+    c07ConjoinDefaults = [] ∧
+    c07DescendantsConsts = ["('scopes',)"] ∧
+    c07DescendantsNames = ["scopes", "scopal_arguments", "predications", "_descendants", "id"] ∧
+    c07DescendantsDefaults = ["None"] ∧
+    c07DescendantsRecConsts = ["None"] ∧
+    c07DescendantsRecNames = ["isinstance", "str", "get", "append", "_descendants", "id", "extend"] ∧
+    c07DescendantsRecDefaults = [] ∧
+    c07RepresentativesConsts = ["'xeipu'", "('types',)", "<<genexpr>>", "None", "</>", "<<genexpr>>", "None", "</>", "1", "<<genexpr>>", "None", "</>", "('key',)"] ∧
+    c07RepresentativesNames = ["scopes", "arguments", "items", "set", "descendants", "len", "extend", "id", "intersection", "any", "append", "_make_representative_priority", "sort", "id", "intersection"] ∧
+    c07RepresentativesDefaults = ["None"] ∧
+    c07RepPriorityConsts = ["1", "'p'", "<representative_priority>", "None", "'x'", "0", "'e'", "'TENSE'", "''", "2", "1", "3", "</>"] ∧
+    c07RepPriorityNames = ["enumerate", "predications", "id", "Predication", "id", "type", "is_quantifier", "properties", "get", "lower", "_UNTENSED_VALUES"] ∧
+    c07RepPriorityDefaults = [] ∧
+    c07DmrsScopesConsts = ["1", "('starting_vid',)", "None", "<<genexpr>>", "<<genexpr>>", "None", "</>", "None", "</>"] ∧
+    c07DmrsScopesNames = ["variable", "HANDLE", "VariableFactory", "nodes", "id", "new", "links", "post", "EQ_POST", "start", "end", "scope", "conjoin", "top", "next", "items", "any", "id"] ∧
+    c07DmrsScopesDefaults = [] ∧
+    c07DmrsNormalizeConsts = [] ∧
+    c07DmrsNormalizeNames = ["start", "TOP_NODE_ID", "end", "append"] ∧
+    c07DmrsNormalizeDefaults = [] ∧
+    c07NodeEqConsts = ["None"] ∧
+    c07NodeEqNames = ["isinstance", "Node", "NotImplemented", "predicate", "type", "properties", "carg"] ∧
+    c07NodeEqDefaults = [] ∧
+    c07BfsConsts = ["None", "<<genexpr>>", "None", "</>"] ∧
+    c07BfsNames = ["set", "next", "iter", "deque", "popleft", "add", "extend", "get"] ∧
+    c07BfsDefaults = ["None"] ∧
+    c07ConnectedComponentsConsts = ["None"] ∧
+    c07ConnectedComponentsNames = ["set", "add", "_bfs", "update", "append"] ∧
+    c07ConnectedComponentsDefaults = [] ∧
+    c07VariableSplitConsts = ["1", "2"] ∧
+    c07VariableSplitNames = ["_variable_re", "match", "ValueError", "group"] ∧
+    c07VariableSplitDefaults = [] ∧
+    c07VarFactoryInitConsts = ["None"] ∧
+    c07VarFactoryInitNames = ["vid", "index", "store"] ∧
+    c07VarFactoryInitDefaults = ["1"] ∧
+    c07VarFactoryNewConsts = ["1"] ∧
+    c07VarFactoryNewNames = ["UNSPECIFIC", "vid", "index", "store"] ∧
+    c07VarFactoryNewDefaults = ["None"] ∧
+    c07VariableSorts = ["u", "i", "p", "e", "x", "h"] ∧
+    c07VariablePattern = "^([-\\w]*[^\\s\\d])(\\d+)$" ∧
+    c07VariablePatternFlags = 32 ∧
+    c07MrsRoles = [INTRINSIC_ROLE, RESTRICTION_ROLE, "BODY", CONSTANT_ROLE, "q"] ∧
+    c07ScopeRelations = ["leq", LHEQ, "outscopes", QEQ] ∧
+    c07UntensedValues = ["", "untensed"] ∧
+    c07DmrsConstants = ["0", "10000", "RSTR", "MOD", EQ_POST, HEQ_POST, "NEQ", H_POST, "NIL", "cvarsort"] ∧
+    c07IdProbes = (([pinEP [("ARG0", ⟨"x", 5⟩)], pinEP [("ARG0", ⟨"x", 5⟩), ("RSTR", ⟨"h", 2⟩)], pinEP [],
+          pinEP [("RSTR", ⟨"h", 2⟩)]].map EP.baseId
+        ++ (pinMRS3).ids
+        ++ ((DMRS.idToLbl { top := none, index := none, nodes := [{ id := 10000, predicate := "p" }], links := [] }).map (·.2))
+       ).map (fun v => (v.sort, v.vid))) := by
+  repeat' apply And.intro
+  all_goals first | rfl | decide
 
 end Verif.C07
